@@ -297,6 +297,14 @@ fn finalize(ctx: &Ctx, rep: Report, wall: f64) -> i32 {
             printed += 1;
         }
     }
+    if !pending.is_empty() && lines.iter().any(|l| l.starts_with("VIOLATION")) {
+        // the verdict already stands on a reproducible case (for shared mutable state: the
+        // enumerated schedule of the E6 explorer); the sweep's sightings are only noted
+        for (_, sub, case, _) in &pending {
+            eprintln!("  [{}] {}: seen in the parallel sweep only (not reproducible single-threaded); see the reproducible case(s) above", sub, case.key());
+        }
+        pending.clear();
+    }
     if !pending.is_empty() {
         let items: Vec<(&'static str, Case)> = pending.iter().map(|p| (p.1, p.2.clone())).collect();
         let hit = confirm_concurrently(ctx, &items, Duration::from_secs(20));
